@@ -549,21 +549,24 @@ func c03Eval(c *Ctx, cs Case) {
 				if signedBy[k] != (ok && verr == nil) {
 					fail(fmt.Sprintf("step %d: Verify on the signed object itself (certificate %d, signed by it: %v)", i, k, signedBy[k]), fmt.Sprint(ok, verr), fmt.Sprint(signedBy[k]))
 				}
-				// the TRANSLATED Verify loop on the object's table (with the translated memoising closure: the driver's
-				// verifyDigest asks it for the digest before it answers, and hands its map on to the next entry), its
-				// externals answering for every listed entry what the real ParseAuthenticode / (*Authenticode).Verify
-				// answer for that entry's body over the hash input
+				// the TRANSLATED Verify loop on the object's table, with the translated memoising closure and the TRANSLATED
+				// (*Authenticode).verifyDigest (algorithm, digest length, closure call, digest comparison, Pkcs.Verify); the
+				// externals answer for every listed entry what the real library says: whether it parses, its digest
+				// algorithm and embedded digest, what its PKCS#7 answers for the certificate; the digest external answers
+				// the real SHA-256 of the hash input
 				if c.GenDrv != nil && serr == nil && len(cur) > 0 {
-					verdicts := ""
+					var obs []string
 					for _, w := range sl {
-						verdicts += entryVerdictLetter(w.Certificate, cert, pre0)
+						obs = append(obs, entryObs(w.Certificate, cert))
 					}
+					verdicts := strings.Join(obs, ",")
 					if verdicts == "" {
 						verdicts = "-"
 					}
 					dd := ddOfHeld(cur, b.dd)
 					if int(dd.size) <= len(cur) {
-						c.GenTieGo(cs, fmt.Sprintf("step %d: Verify on the signed object (certificate %d, entries %s)", i, k, verdicts), verifyObs(ok, verr), "gen.pe.verify", hx(cur[len(cur)-int(dd.size):]), verdicts)
+						imgSum := sha256.Sum256(pre0)
+						c.GenTieGo(cs, fmt.Sprintf("step %d: Verify on the signed object (certificate %d, entries %s)", i, k, verdicts), verifyObs(ok, verr), "gen.pe.verify", hx(cur[len(cur)-int(dd.size):]), verdicts, hx(imgSum[:]))
 					}
 				}
 			}
@@ -612,22 +615,28 @@ func winCertsObs(sl []*signature.WINCertificate, err error) string {
 	return "ok [" + strings.Join(parts, ",") + "]"
 }
 
-// entryVerdictLetter: what the real library says of one table entry body for a certificate: P it does not parse,
-// E its verification reports an error, T / F it verifies / does not verify
-func entryVerdictLetter(body []byte, cert *x509.Certificate, hashInput []byte) string {
+// entryObs: what the real library says of one table entry body for a certificate, for the driver's gen.pe.verify: `P` it
+// does not parse; otherwise `<digest algorithm OID, dotted>;<embedded digest, hex>;<V>` where V is what the entry's
+// PKCS#7 answers for the certificate (`a.Pkcs.Verify(cert)`): T / F verified true / false, E an error. The checks of
+// (*Authenticode).verifyDigest in between — algorithm, digest length, digest comparison — are the TRANSLATED ones.
+func entryObs(body []byte, cert *x509.Certificate) string {
 	var a *authenticode.Authenticode
 	var err error
-	if pan, _ := safely(func() { a, err = authenticode.ParseAuthenticode(body) }); pan || err != nil {
+	if pan, _ := safely(func() { a, err = authenticode.ParseAuthenticode(body) }); pan || err != nil || a == nil || a.Algid == nil || a.Pkcs == nil {
 		return "P"
 	}
+	v := "F"
 	var ok bool
-	if pan, _ := safely(func() { ok, err = a.Verify(cert, bytes.NewReader(hashInput)) }); pan || err != nil {
-		return "E"
+	if pan, _ := safely(func() { ok, err = a.Pkcs.Verify(cert) }); pan || err != nil {
+		v = "E"
+	} else if ok {
+		v = "T"
 	}
-	if ok {
-		return "T"
+	oid := a.Algid.Algorithm.String()
+	if oid == "" {
+		oid = "-"
 	}
-	return "F"
+	return oid + ";" + hx(a.Digest) + ";" + v
 }
 
 // verifyObs: what Verify returned, in the format of the driver's gen.pe.verify
